@@ -3,7 +3,7 @@ import random
 
 LEVEL = 'exploration'
 RULE = ('seeded documents built with explicit user actions: 3-4 user tables whose column ids overlap (the same id in several '
-        'tables), Ref/RefList columns between them, two summary tables of one source (sister columns) and 35-50 formula columns '
+        'tables), Ref/RefList columns between them, one or two summary tables of one source (sister columns) and 30-45 columns with formula text '
         '(incl. default/trigger formulas of data columns) drawn from productions for every reference form of the statement '
         '($col, rec.col, Ref/RefList chains also through formula columns of Ref type, lookupRecords/lookupOne keywords and '
         'result attributes, order_by strings with "-" and tuples, .find.*, CONTAINS, Table.all, list/set/dict/generator '
@@ -23,13 +23,18 @@ ASSUMPTIONS = ['formula values are compared in encoded form, keyed by metadata r
                'formula that was not rewritten cannot keep the value it computed before; at the end of each document a second '
                'engine process recalculates everything from the data columns',
                'volatile functions and str()/repr() of records are never generated; only acyclic formulas',
-               'forms the engine does not follow (see the open findings: legacy sort_by= strings, comprehensions over $group / '
-               'RefList columns, expressions after a line break inside a multi-line f-string, a table renamed to the name of a '
-               'formula function) are kept out of the main stream and exercised by deterministic witnesses']
-REQUIRED = {'renames_nontrivial': {'quick': 150, 'thorough': 1500}, 'formula_texts_checked': {'quick': 8000, 'thorough': 80000},
-            'cells_compared': {'quick': 50000, 'thorough': 500000}, 'recalc_compares': {'quick': 150, 'thorough': 1500},
-            'fresh_engine_compares': {'quick': 8, 'thorough': 60}}
-SHARD_TIMEOUT = {'quick': 240, 'thorough': 1800}
+               'triggers of the open findings are kept out of the random stream and exercised by deterministic witnesses in every '
+               'run: legacy sort_by= strings, comprehensions over $group / RefList columns, expressions after a line break inside '
+               'a multi-line f-string, all-capitals table ids (they share the module namespace with the formula functions), and '
+               'table renames of the one table per document that has Any-typed formula columns holding records',
+               'the ids order_by / sort_by are not used as column targets (as keyword names of lookupRecords they are taken by the '
+               'lookup API itself); summary group-by columns, `group`, manualSort and summary tables are not renamed directly '
+               '(the engine refuses that by design)']
+REQUIRED = {'renames_nontrivial': {'quick': 120, 'thorough': 1200}, 'formula_texts_checked': {'quick': 6000, 'thorough': 70000},
+            'formula_texts_expected_changed': {'quick': 300, 'thorough': 3500},
+            'cells_compared': {'quick': 40000, 'thorough': 450000}, 'recalc_compares': {'quick': 150, 'thorough': 1500},
+            'fresh_engine_compares': {'quick': 8, 'thorough': 60}, 'witness_runs': {'quick': 7, 'thorough': 7}}
+SHARD_TIMEOUT = {'quick': 600, 'thorough': 3000}
 
 
 def plan(tier, seed):
